@@ -466,6 +466,12 @@ func cmdCheck(args []string) {
 			knownHit = append(knownHit, fmt.Sprintf("KNOWN-FINDING: property=%s %s: %s", prop, r.Ob.Name, k.What))
 			continue
 		}
+		if claimed[r.Ob.Name] && strings.HasPrefix(r.Ob.Kind, "wire-") && r.Status == "unknown" {
+			// the pair left the reach of the grammar extractor (a construct it does not model): nothing is known
+			// about the property, which is not a violation
+			undecided = append(undecided, "claimed obligation can no longer be formed: "+r.Ob.Name+": "+truncate(r.Output, 300))
+			continue
+		}
 		if claimed[r.Ob.Name] {
 			violations = append(violations, r)
 			continue
@@ -518,6 +524,19 @@ func cmdCheck(args []string) {
 				"failing_case": f, "how_to_replay": "cd /repo && go test -overlay <overlay mapping " + bc.File + " into the package> -vet=off -run " + bc.Test + " ."}, "", " ")
 			os.WriteFile(path, data, 0o644)
 			fmt.Printf("VIOLATION property=%s replay=%s obligation=bounded/%s status=failing-input %s\n", prop, path, bc.Label, truncate(f, 200))
+			boundedViolations++
+			exit = 1
+		}
+	}
+	if only, has := p.wireTypes[prop]; has && only == nil && p.wireClauses[prop] == nil && *tier == "thorough" && len(base.WireReplay) > 0 {
+		rep, fails := p.wireRoundTripStandIn(prop, base)
+		boundedReport = append(boundedReport, rep)
+		for i, f := range fails {
+			path := filepath.Join(verifDir, "replays", prop, fmt.Sprintf("bounded_wire_roundtrip_%d.json", i))
+			data, _ := json.MarshalIndent(map[string]interface{}{"property": prop, "bounded_check": "wire_roundtrip", "failing_case": f,
+				"how_to_replay": rep["cmd"]}, "", " ")
+			os.WriteFile(path, data, 0o644)
+			fmt.Printf("VIOLATION property=%s replay=%s obligation=bounded/wire_roundtrip status=failing-input %s\n", prop, path, truncate(f, 200))
 			boundedViolations++
 			exit = 1
 		}
